@@ -510,7 +510,7 @@ def corpus(tier):
     add("B3.loop-3term", [[loop("up", [s])] for s in loop3])
 
     # ---- C: every loop kind around the representative statements ---------
-    kinds = ["up", "dn", "in", "s2", "c3", "r3"] + (["d2", "e2"] if thorough else [])
+    kinds = ["up", "dn", "in", "s2", "c3", "r3", "e2"] + (["d2"] if thorough else [])
     red1 = reduced("L1", "thorough")
     add("C1.loopkinds", [[loop(k, [s])] for k in kinds for s in red1])
     if thorough:
